@@ -130,6 +130,13 @@ CHECKS["C05"] = {
   "text": "Proved on the real bodies: combine_composition returns None iff an input is None, otherwise exactly the components of A and B with fraction (vA*fA + vB*fB)/(vA+vB) (0 for absent), normalised and within [0,1] when the inputs are (dicts of 0-2 symbolic components with possibly shared names); Labware.add with a composition sets, at the addressed real well (troughs: the aliased one), every component to that mixture with the well's previous volume, keeps fractions summing to 1, leaves every other well and component untouched, changes nothing when rejected or when the well stays empty; remove never touches the composition (frame); get_well_composition returns exactly the positive fractions. Lemmas: mixture bounded, normalised, component amount conserved ((vA+vB)*mix == vA*fA + vB*fB). " + _C05,
   "note": "Mixed: histories of operations (serial dilutions, conservation across labware), default / explicit naming (get_initial_composition, trough names) are explored by the bounded monitor. Symbolic labware carries two named components; incoming liquids 1-2 components. float = real.",
 }
+_C14 = _BOUNDED_ONLY.pop("C14")
+CHECKS["C14"] = {
+  "category": "exploration",
+  "technique": "bounded runtime-contract monitor (stand-in) for the plan and its execution; contract-based deductive verification only of the argument-validation prefix of DilutionPlan.__init__ (the planning loops are NumPy vector code over exp/log/linspace, outside the verifier's reach)",
+  "text": _C14 + " Deductive part (small): for every parameter tuple the constructor raises ValueError when stock < xmax, when vmax has a length other than 1 or C, or when the mode is neither 'log' nor 'linear', and past that prefix none of these conditions holds (prefix completeness); nothing else of this property is proved.",
+  "note": "Level exploration: the property is decided by the bounded monitor (counts in the evidence); the few discharged obligations are reported separately and cover only the three argument rejections. Known finding: over-drawn source columns (known_findings.json).",
+}
 for _pid, _txt in _BOUNDED_ONLY.items():
     CHECKS[_pid] = {
         "category": "exploration",
